@@ -20,6 +20,9 @@ TOKENS = ["P", "K", "B", "[", "]", "(", ")", "{", "}", "<", ">", "?", "-", "+", 
           "1", "2", "Oxidation", "\\", " "]
 
 
+
+RULE_EXTRA = ("generated modification values (14 prefixes x 27 pieces, stray brackets in the labile slot) judged for 'silently counted as zero' / non-ValueError / rejected although meaningful; PSI-MOD entries without mass; wrong-case names after valid ones; isotope labels, adduct texts (incl. numbers) and global rules with and without a bracketed modification; conformance of the TLA+ parser machine with the real parser on every short token string and on seeded longer texts (divergences are evidence, never a verdict); the enumeration abandons a chunk after 8 watchdog hits.")
+
 def outcome_of(pp, s, watchdog=1.0):
     o, v = call(pp.parse, s, watchdog=watchdog)
     info = exc_info(o, v)
@@ -279,7 +282,7 @@ def run(tier, seed, rep):
     rep.add_trace("parser_totality", evs, res, traces=nstrings + sum(v[0] for v in buckets.values()) + j,
                   sig=lambda e: (e["k"], json.dumps(e.get("outcome")), e.get("valid"), e.get("v"), e.get("slot")))
     return rep.finish(rule=f"every string of up to {max_len} tokens over the 27-token notation alphabet ({nstrings} strings, "
-                           "each parsed, serialised with and without plus, and passed to is_sequence_valid under a 2 s "
+                           "each parsed, serialised with and without plus, and passed to is_sequence_valid under a 1 s "
                            "watchdog), seeded random strings up to 40 tokens, single-token mutations of valid strings, and "
                            "the deferred-validation corpus x 6 modification slots; strings are bucketed by outcome, every "
                            "outcome class reaches TLC", exhaustive=True,
